@@ -428,10 +428,27 @@ func runFanout(cfg *vc.Config, rep *vc.Report) {
 		locker := command.NewDefaultLocker()
 		pool := []string{"a", "b", "c", "d", "e", "f"}
 		k := r.Range(2, 5)
-		kind := r.Intn(3)
+		kind := r.Intn(4)
 		var hAcc command.Accounts
 		accs := make([]command.Accounts, k)
+		var h2Unlock command.Unlock // kind 3: a second holder that keeps the head of the queue blocked
+		blockedHead := false
 		switch kind {
+		case 3: // the head of the queue stays blocked by another holder; the ones behind it become grantable
+			u2, err := locker.Lock(context.Background(), command.Accounts{Write: []string{"z"}})
+			if err != nil {
+				return
+			}
+			h2Unlock = u2
+			blockedHead = true
+			hAcc = command.Accounts{Write: []string{"a"}}
+			for j := range accs {
+				if j == 0 {
+					accs[j] = command.Accounts{Write: []string{"z"}}
+				} else {
+					accs[j] = command.Accounts{Read: []string{"a"}}
+				}
+			}
 		case 0: // readers behind a writer
 			hAcc = command.Accounts{Write: []string{"a"}}
 			for j := range accs {
@@ -453,7 +470,7 @@ func runFanout(cfg *vc.Config, rep *vc.Report) {
 			}
 		}
 		cancelIdx := -1
-		if k > 2 && r.Chance(1, 3) {
+		if k > 2 && !blockedHead && r.Chance(1, 3) {
 			cancelIdx = 1 + r.Intn(k-2) // a waiter in the middle of the queue gives up before the release
 		}
 		rep.Eval()
@@ -502,6 +519,9 @@ func runFanout(cfg *vc.Config, rep *vc.Report) {
 			want--
 			rep.Inc("fanout_with_cancelled_waiter")
 		}
+		if blockedHead {
+			want-- // waiter 0 must stay pending until the second holder releases
+		}
 		hUnlock(context.Background())
 		got := 0
 		timeout := time.After(20 * time.Second)
@@ -519,6 +539,23 @@ func runFanout(cfg *vc.Config, rep *vc.Report) {
 			close(releaseAll)
 			rep.Write(true)
 			os.Exit(0)
+		}
+		if blockedHead {
+			select {
+			case j := <-granted:
+				rep.Violate("granted-while-conflicting-holder:fanout", fmt.Sprintf("waiter %d was granted although the account it wants is still held", j), i, desc)
+			default:
+			}
+			h2Unlock(context.Background())
+			select {
+			case <-granted:
+				got++
+			case <-time.After(20 * time.Second):
+				rep.Violate("grantable-request-left-pending:fanout", "the head of the queue was not granted after its holder released", i, desc)
+				close(releaseAll)
+				rep.Write(true)
+				os.Exit(0)
+			}
 		}
 		close(releaseAll)
 		wg.Wait()
